@@ -1,7 +1,7 @@
 """C05 — the mask never hides a feasible solution: the optimum stays reachable."""
 PROPERTY = "C05"
 LEVEL = "exploration"
-EXHAUSTIVE_KEY = "c05_instances_fully_explored"
+COVERAGE_EXTRA = {"exhaustive": False, "exhaustive_per_instance": "every instance counted in monitor_counters.c05_instances_fully_explored had ALL its mask-admitted histories expanded; the instance space itself is sampled"}
 RULE = (
     "case = ONE small instance of one env configuration. The explorer expands the real env breadth-first over EVERY True "
     "bit of the advertised mask (all mask-admitted histories, replayed through env.reset/env.step) and collects all "
